@@ -97,6 +97,29 @@ def faultRun (me : Nat) (n : Node) (b : Block) (rest : List Block) (kind : Fault
   let r := faultBlock me n b kind k
   run me r.1 (resumeList r.1 (b :: rest))
 
+/-- one fault of a sequence: `skip` blocks of the stream that is still to be processed go through, the next block is
+    hit at write index `k` -/
+structure Fault where
+  skip : Nat
+  kind : FaultKind
+  k : Nat
+deriving DecidableEq, Repr
+
+/-- a stream processed under a sequence of faults, each followed by restart-and-resume; the second Bool tells
+    whether some fault fell between account record and wallet index -/
+def faultyRun (me : Nat) : Node → List Block → List Fault → (Node × Bool) × Bool
+  | n, bs, [] => (run me n bs, false)
+  | n, bs, f :: fs =>
+    let r := run me n (bs.take f.skip)
+    if !r.2 then (r, false)
+    else
+      match bs.drop f.skip with
+      | [] => (r, false)
+      | b :: rest =>
+        let x := faultBlock me r.1 b f.kind f.k
+        let q := faultyRun me x.1 (resumeList x.1 (b :: rest)) fs
+        (q.1, q.2 || x.2 == .faultedBad)
+
 /-! ### the write trace of an uninterrupted block (compared with the recorded trace of the real handler) -/
 
 def eventsTrace (me blk : Nat) : Node → List Event → List Step
